@@ -9,8 +9,8 @@ TECH = "contract-based deductive verification: Kani/CBMC harness contracts on th
 CLAIMS = {
  "C02": ("other", "Bounded stand-ins plus call-site proofs: from every state of the gradual calculators' representation invariant (object count fixed per harness, position and nth argument symbolic) one next()/nth(k) processes exactly the difficulty objects of the consumed hit objects, in order, and the i-th value carries the counts of exactly the first i objects; each mode's constructor converts with the same (mode, mods) as the one-shot path and catch converts its objects with the same arguments on both paths. Equality of the float attributes rests on 'same function, same prefix' (assumption A-F) and is not proved.", "DESIGN.md §5 C02",
          "skill process/eval stubbed (frame assumed); new() establishing the invariant not proved; N<=3 quick, <=4 thorough; taiko healthy class only, F3/F4 known findings; mania hold-note combo under clock rates (F7) not checked"),
- "C03": ("other", "Bounded stand-ins: for osu, mania and catch, from every invariant state (0 or 2 objects quick, 3 thorough) and any score state / caller Difficulty, GradualPerformance::next/nth/last consume min(n+1, remaining) objects, return None exactly when nothing remains, and the performance builder whose calculate() is invoked equals Performance(attrs_i).difficulty(D).passed_objects(i).state(S) field for field (calculate() replaced by a recording stub). Plus the proof that Performance::passed_objects forwards in all modes.", "DESIGN.md §5 C03",
-         "pp calculation itself stubbed (same function on both paths: A-F); taiko not covered; skill process/eval stubbed"),
+ "C03": ("other", "Bounded stand-ins: for osu, mania, catch (0 or 2 objects quick, 3 thorough) and taiko (three hits), from every invariant state and any score state / caller Difficulty, GradualPerformance::next/nth/last consume min(n+1, remaining) objects, return None exactly when nothing remains, and the performance builder whose calculate() is invoked equals Performance(attrs_i).difficulty(D).passed_objects(i).state(S) field for field (calculate() replaced by a recording stub). Plus the proof that Performance::passed_objects forwards in all modes.", "DESIGN.md §5 C03",
+         "pp calculation itself stubbed (same function on both paths: A-F); skill process/eval stubbed"),
  "C05": ("proof", "Side conditions only: absence of panics (index, overflow, unwrap, unreachable) inside every function under contract for its stated precondition, checked by Kani on each harness; BananaShower::new terminates within 18 iterations without i32 overflow on the realistic domain (unwinding assertions). Whole-decoder / whole-pipeline totality is outside the technique and not claimed.", "DESIGN.md §5 C05",
          "only the functions listed in the evidence; spinner length <= 800 ms for the termination obligation; F8 (f32 absorption beyond 2^30 ms) observed in the design phase is outside the realistic domain and not checked"),
  "C06": ("proof", "Proof-level core: TandemSorter::sort/toggle_marks proved by Verus on the extracted real code for all lengths (objects and hit sounds are permuted identically; pairing lemma); control-point clamps for all f64 bit patterns. Bounded stand-ins for new_stable (n=5) and control-point insertion (vector length 0..3, any f64 times). Decoder totality / byte-string claims are outside the technique and not claimed.", "DESIGN.md §5 C06",
